@@ -324,6 +324,18 @@ fn eval_case_inner(line: &str) -> String {
             let pages: Vec<String> = (0..k).map(|i| str_pages(bus.sign(i).pages())).collect();
             format!("{}# {}", out, pages.join(";"))
         }
+        "CP" => {
+            // Sign::width / height / create_page (no bus traffic)
+            let bus: Rc<RefCell<dyn SignBus>> = Rc::new(RefCell::new(ScriptBus::new(vec![])));
+            let sign = Sign::new(bus.clone(), Address(3), SIGN_TYPES[num::<usize>(t[1])]);
+            match guarded(|| {
+                let p = sign.create_page(PageId(num(t[2])));
+                format!("{} {} {}", sign.width(), sign.height(), hex_of_bytes(p.as_bytes()))
+            }) {
+                Some(s) => s,
+                None => "PANIC".to_string(),
+            }
+        }
         "CT" => {
             if snd_unconstructible(t[1]) {
                 // a page literal the library refuses to build (wrong byte length): nothing to send
